@@ -75,6 +75,29 @@ Proof.
   apply negb_true_iff in B. rewrite B. reflexivity.
 Qed.
 
+(* whether a fetched body is accepted is decided by the body and the REQUESTED CID alone --
+   by nothing that was fetched, stored or requested before *)
+Lemma fetch_block_decides resp reqs c s b :
+  local_ok s c = None -> resp (length reqs) = Some b ->
+  fetch_block resp reqs c s =
+  (reqs ++ [c], (if hashes_to b c then (c, b) :: s else s), (if hashes_to b c then Some b else None)).
+Proof.
+  intros L R. unfold C02_FetchVerify.fetch_block. rewrite L, R. destruct (hashes_to b c); reflexivity.
+Qed.
+
+Theorem digest_check_history_independent_proved :
+  forall resp1 resp2 reqs1 reqs2 s1 s2 c b,
+    local_ok s1 c = None -> local_ok s2 c = None ->
+    resp1 (length reqs1) = Some b -> resp2 (length reqs2) = Some b ->
+    snd (fetch_block resp1 reqs1 c s1) = snd (fetch_block resp2 reqs2 c s2) /\
+    (snd (fetch_block resp1 reqs1 c s1) = Some b <-> hashes_to b c = true) /\
+    (snd (fetch_block resp1 reqs1 c s1) = None <-> hashes_to b c = false).
+Proof.
+  intros resp1 resp2 reqs1 reqs2 s1 s2 c b L1 L2 R1 R2.
+  rewrite (fetch_block_decides resp1 reqs1 c s1 b L1 R1), (fetch_block_decides resp2 reqs2 c s2 b L2 R2).
+  cbn [snd]. destruct (hashes_to b c); repeat split; try reflexivity; try discriminate; auto.
+Qed.
+
 (* the request log of one fetch: unchanged, or one more request whose answer decides *)
 Lemma fetch_block_reqs resp reqs c s :
   let '(reqs1, s1, ob) := fetch_block resp reqs c s in
